@@ -343,7 +343,14 @@ def c14_7(ctx):
     return out
 
 
+def c14_8(ctx):
+    """CTOR-FORWARD: generate / from_mnemonic / from_seed hand the passphrase, network and version bytes on to the constructor they end in"""
+    from sa.forward import forward_obligation
+    return forward_obligation(ctx, ["hd"], "a key generated with a passphrase is the empty-passphrase key: it cannot be restored from mnemonic + passphrase")
+
+
 OBLIGATIONS = [
+    ("C14.8", "CTOR-FORWARD", c14_8),
     ("C14.1", "GUARD", c14_1),
     ("C14.2", "TABLE derived", c14_2),
     ("C14.3", "DATA", c14_3),
